@@ -1,5 +1,6 @@
 import PlasVerif.Proofs.IfScan
 import PlasVerif.Proofs.TeXTests
+import PlasVerif.Proofs.IfInvoke
 /-!
 # C03 — Conditionals process exactly the branch TeX would select
 
@@ -270,5 +271,145 @@ theorem newif_setters (k : Nat) (v : Bool) (s : St) (h : (s.sw k).isSome = true)
 /-- switches are global in this implementation (C04 lists them with counters): leaving or
     entering a group changes no switch -/
 theorem newif_global (s : St) : (eff .egroup s).sw = s.sw ∧ (eff .bgroup s).sw = s.sw := ⟨rfl, rfl⟩
+
+/-! ## token level: the primitives with their operand scanning, and how the scanner recognises tokens
+
+`Model/IfInvoke.lean` composes the models of `Macro.parse`, `readInteger`, `readDimen` (tied to the code by C05's and
+by C03's `invoke`/`condraw`/`testlit` streams) into the test primitives' `invoke`, and `classify` is the
+`macroName` chain at the head of the loop of `processIfContent`. -/
+section tokenLevel
+open PlasVerif.Model.Numbers PlasVerif.Model.IfInvoke PlasVerif.Spec.Literals PlasVerif.Spec.Conform
+open PlasVerif.Proofs.Numbers PlasVerif.Proofs.IfInvoke
+
+/-- **`\ifnum` on every literal of TeX's grammar.**  For all integer literals (any run of signs and blanks; decimal,
+    octal `'`, hexadecimal `"`, character `` ` `` constants; registers; the optional blank) on both sides of `<`, `>`
+    or `=`, followed by anything that cannot continue the second literal: the primitive passes TeX's verdict on the
+    two TeX values to the branch scanner and leaves exactly what follows the literal. -/
+theorem ifnum_invoke_decides (la lb : IntLit) (c : Nat) (rest : List Tok) (hwa : la.wf = true) (hwb : lb.wf = true)
+    (hc : c = 60 ∨ c = 61 ∨ c = 62) (hfb : intFollow lb rest = true) :
+    ∃ rest', ifnumInvoke (la.render ++ .ch c :: (lb.render ++ rest)) = .ok (.bool (relVerdict c la.den lb.den), rest')
+      ∧ sameText rest' rest := by
+  obtain ⟨ss, hp⟩ := parse_num_rel la c (lb.render ++ rest) hwa hc
+  obtain ⟨r', hr, hs⟩ := integer_reads lb rest hwb hfb
+  refine ⟨r', ?_, hs⟩
+  simp only [ifnumInvoke, hp, hr, relChain_rel _ _ _ _ hc, relVerdict]
+
+/-- non-vacuity: `-"1F=31 \relax` is false, `\relax` is left -/
+example : ifnumInvoke ((⟨⟨0, [(true, 0)]⟩, .hex [1, 15], false⟩ : IntLit).render ++ .ch 61 ::
+    ((⟨⟨0, []⟩, .dec [3, 1], true⟩ : IntLit).render ++ [.cs [114] false])) = .ok (.bool false, [.cs [114] true]) := by rfl
+
+theorem odd_python_eq_tex (n : Int) : (n % 2 != 0) = texOdd n := by
+  simp only [texOdd]
+  rw [Bool.eq_iff_iff]
+  simp only [bne_iff_ne, ne_eq, beq_iff_eq]
+  omega
+
+/-- `\ifodd` on every literal form: odd iff the TeX value is odd (negative values included) -/
+theorem ifodd_invoke_decides (l : IntLit) (rest : List Tok) (hw : l.wf = true) (hf : intFollow l rest = true) :
+    ∃ rest', ifoddInvoke (l.render ++ rest) = .ok (.bool (texOdd l.den), rest') ∧ sameText rest' rest := by
+  obtain ⟨r', hr, hs⟩ := integer_reads l rest hw hf
+  exact ⟨r', by simp only [ifoddInvoke, hr, odd_python_eq_tex], hs⟩
+
+example : ifoddInvoke ((⟨⟨0, [(true, 1)]⟩, .chr 97, false⟩ : IntLit).render ++ [.cs [102, 105] false]) =
+    .ok (.bool true, [.cs [102, 105] false]) := by rfl
+
+/-- `\ifcase` on every literal form: the selector is the TeX value -/
+theorem ifcase_invoke_selector (l : IntLit) (rest : List Tok) (hw : l.wf = true) (hf : intFollow l rest = true) :
+    ∃ rest', ifcaseInvoke (l.render ++ rest) = .ok (.case l.den, rest') ∧ sameText rest' rest := by
+  obtain ⟨r', hr, hs⟩ := integer_reads l rest hw hf
+  exact ⟨r', by simp only [ifcaseInvoke, hr], hs⟩
+
+example : ifcaseInvoke ((⟨⟨1, [(true, 0), (true, 2)]⟩, .oct [1, 7], true⟩ : IntLit).render ++ [.ch 88]) =
+    .ok (.case 15, [.ch 88]) := by rfl
+
+/-- **`\ifdim` on every dimension literal of TeX's grammar** (any sign run, every fraction form, every physical unit in
+    any letter case, `true`, blanks, register multiples, bare registers): TeX's verdict on the two TeX amounts (exact
+    rationals in sp), and exactly the two literals and the relation are consumed. -/
+theorem ifdim_invoke_decides (la lb : DimLit) (c : Nat) (rest : List Tok)
+    (hwa : dimWf false la = true) (hwb : dimWf false lb = true) (hc : c = 60 ∨ c = 61 ∨ c = 62)
+    (hoa : la.den.order = 0) (hob : lb.den.order = 0)
+    (hfa : dimFollow la (.ch c :: (lb.render ++ rest)) = true) (hfb : dimFollow lb rest = true) :
+    ifdimInvoke (la.render ++ .ch c :: (lb.render ++ rest)) =
+      .ok (.bool (relVerdict c la.den.amount lb.den.amount), rest) := by
+  have h1 := readDimen_lit la _ hwa hfa hoa
+  have h2 := readDimen_lit lb _ hwb hfb hob
+  simp only [readDimen] at h1 h2
+  simp only [ifdimInvoke, PlasVerif.Model.Args.parse, PlasVerif.Model.Args.readArgument, dimArg, tokArg, readDimen,
+    readDimenWith_ros, h1, h2, ros_ch]
+  simp [h2, relChain_rel _ _ _ _ hc, relVerdict]
+
+/-- non-vacuity: `-1.5pt<2 PT` followed by `\r`: the hypotheses hold -/
+example :
+    dimWf false ⟨⟨0, [(true, 0)]⟩, .inl ⟨[1], some false, [5]⟩, ⟨0, none, .phys 0, [112, 116], false⟩⟩ = true ∧
+    dimWf false ⟨⟨0, []⟩, .inl ⟨[2], none, []⟩, ⟨1, none, .phys 0, [80, 84], false⟩⟩ = true ∧
+    (⟨⟨0, [(true, 0)]⟩, .inl ⟨[1], some false, [5]⟩, ⟨0, none, .phys 0, [112, 116], false⟩⟩ : DimLit).den.order = 0 ∧
+    dimFollow ⟨⟨0, [(true, 0)]⟩, .inl ⟨[1], some false, [5]⟩, ⟨0, none, .phys 0, [112, 116], false⟩⟩
+      (.ch 60 :: ((⟨⟨0, []⟩, .inl ⟨[2], none, []⟩, ⟨1, none, .phys 0, [80, 84], false⟩⟩ : DimLit).render ++ [.cs [114] false])) = true ∧
+    dimFollow ⟨⟨0, []⟩, .inl ⟨[2], none, []⟩, ⟨1, none, .phys 0, [80, 84], false⟩⟩ [.cs [114] false] = true := by
+  decide +kernel
+
+/-! ### recognition of the scanned tokens -/
+
+/-- every control sequence whose name starts with `if` opens a level for the scanner: the listed primitives, every
+    `\newif` switch `\if<rest>` — and (observation O4) any other macro so named -/
+theorem classify_if_prefix (rest : List Nat) (x : Bool) : classify (.cs (105 :: 102 :: rest) x) = .ifl (105 :: 102 :: rest) := by
+  simp [classify, nmNewif]
+
+/-- `\fi`, `\else`, `\or`, `\newif` are recognised by their exact names only (`\file`, `\fill`, `\elsewhere`,
+    `\orange`, `\newiffy` are ordinary tokens) -/
+theorem classify_exact (n : List Nat) (x : Bool) :
+    (classify (.cs n x) = .fi ↔ n = nmFi) ∧ (classify (.cs n x) = .else_ ↔ n = nmElse) ∧
+    (classify (.cs n x) = .or_ ↔ n = nmOr) ∧ (classify (.cs n x) = .newif ↔ n = nmNewif) := by
+  simp only [classify]
+  refine ⟨?_, ?_, ?_, ?_⟩ <;> constructor
+  all_goals first
+    | (intro h; subst h; simp [nmFi, nmElse, nmOr, nmNewif])
+    | (intro h; repeat' split at h
+       all_goals first | assumption | (subst_vars; simp_all [nmFi, nmElse, nmOr, nmNewif]) | cases h)
+
+example : classify (.cs [102, 105, 108, 101] false) = .other (.cs [102, 105, 108, 101] false) ∧   -- \file
+    classify (.cs [111, 114, 97] false) = .other (.cs [111, 114, 97] false) := by decide            -- \ora
+
+/-- **Look-ahead does not hide a token from the scanner** (D59): a token that a number scanner expanded in place and
+    pushed back is recognised exactly like the raw token, so `\ifcase 1\or`, `\ifodd 12\fi`, `\ifnum 1<2\else` work
+    without `\relax`. -/
+theorem classify_ignores_lookahead (t : Tok) (ts : List Tok) :
+    classify (expand t) = classify t ∧ (settle (t :: ts)).map classify = (t :: ts).map classify := by
+  refine ⟨classify_expand t, ?_⟩
+  simp [settle, classify_expand]
+
+/-- **From raw tokens to the selected branch.**  Whenever a test primitive reads its operands, yields selector `w`
+    and leaves a stream that reads (up to in-place expansion) as a conditional body `cases [\else e] \fi rest`, the
+    whole primitive leaves exactly the branch TeX selects followed by `rest`. -/
+theorem test_then_scan (k : Kind) (ts r tail : List Tok) (w : Which) (hinv : invoke k ts = .ok (w, r))
+    (hs : sameText r tail) (cs : Cases (List Nat) Tok) (he : Bool) (e : Body (List Nat) Tok)
+    (rest : List (PlasVerif.Model.IfScan.Tok (List Nat) Tok))
+    (htail : tail.map classify = cs.flat ++ ((if he then .else_ :: e.flat else []) ++ .fi :: rest))
+    (hw : ∀ b, w = .bool b → cs.isLast = true) :
+    condInvoke k ts = .ok (((match texSelect w cs.count with
+          | some i => (cs.bodies.map Body.flat).getD i []
+          | none => if he then e.flat else []) ++ rest).map unclassify, true) := by
+  simp only [condInvoke, hinv, processIfRaw, map_classify_sameText r tail hs, htail, processIf_selects w cs he e rest hw]
+
+/-- `\ifcase <literal>` followed by its cases: the literal's TeX value selects (the case list may start right after
+    the digits, with `\or`, `\else` or `\fi`) -/
+theorem ifcase_literal_selects (l : IntLit) (tail : List Tok) (hw : l.wf = true) (hf : intFollow l tail = true)
+    (cs : Cases (List Nat) Tok) (he : Bool) (e : Body (List Nat) Tok) (rest : List (PlasVerif.Model.IfScan.Tok (List Nat) Tok))
+    (htail : tail.map classify = cs.flat ++ ((if he then .else_ :: e.flat else []) ++ .fi :: rest)) :
+    condInvoke .case_ (l.render ++ tail) = .ok (((match texSelect (.case l.den) cs.count with
+          | some i => (cs.bodies.map Body.flat).getD i []
+          | none => if he then e.flat else []) ++ rest).map unclassify, true) := by
+  obtain ⟨r', hr, hs⟩ := ifcase_invoke_selector l tail hw hf
+  exact test_then_scan .case_ _ r' tail _ hr hs cs he e rest htail (by intro b hb; cases hb)
+
+/-- non-vacuity (the D59 witness): `\ifcase 1\or B\fi X` leaves `B X` -/
+example : condInvoke .case_ [.ch 49, .cs nmOr false, .ch 66, .cs nmFi false, .ch 88] = .ok ([.ch 66, .ch 88], true) := by rfl
+
+/-- The pinned code before the D59 repair loses the case: the `\or` that the look-ahead of `readInteger` expanded
+    is not recognised, `B` is dropped (kernel-checked witness). -/
+theorem asIs_counterexample_expanded_or :
+    condInvokeAsIs .case_ [.ch 49, .cs nmOr false, .ch 66, .cs nmFi false, .ch 88] = .ok ([.ch 88], true) := by rfl
+
+end tokenLevel
 
 end PlasVerif.Properties.C03
